@@ -495,8 +495,12 @@ fn main() {
     let registry = ConverterRegistry::make_registry();
     let mut import_paths = Vec::new();
     let mut env_vars = BTreeMap::new();
-    for (var, val) in std::env::vars() {
-        env_vars.insert(var.into(), val.into());
+    // std::env::vars() panics on a variable that is not valid unicode.
+    for (var, val) in std::env::vars_os() {
+        env_vars.insert(
+            var.to_string_lossy().into_owned().into(),
+            val.to_string_lossy().into_owned().into(),
+        );
     }
     let env = RefCell::new(Environment::new_with_vars(
         StdoutWrapper::new(),
